@@ -7,7 +7,9 @@ ASSUMPTIONS = [
     "locked / unlocking / withdrawable stake (whole OLT x 10^18), undelegating amounts, delegation reward claims and pending reward "
     "withdrawals, individual proposal funds; NOT counted: aggregates (st__t_, st__d_e_, propFunds_t_, delegRwz_total_rewards), active "
     "delegations deleg_a_ (claims on the delegation pool's balance, which is counted) and validator reward claims rwz_/rwcum_ (paid out "
-    "of the reward pool's balance, which is counted; their size is C13's property)",
+    "of the reward pool's balance, which is counted; their size is C13's property). The validator reward records rwcum_balance_ / "
+    "rwcum_withdrawn_ / rwz_ are decoded as SIDE records and monitored: never negative, and no transaction may raise a matured claim "
+    "rwcum_balance_ (claims grow in BeginBlock only)",
     "allowance of a block = the increase of the code's own accrual counter delegRwz_total_rewards in its BeginBlock (that the accrual "
     "follows the reward schedule is C13); wrapped-currency mints/refunds at witness finality (C15) are not "
     "exercised by the histories of this check; OLVM transactions (transfers, contract creations, failures) ARE in the scenarios and random "
